@@ -1,7 +1,9 @@
 import dis
+import re
 import yaml
 from typing import (
     Any,
+    Iterable,
     Set,
     Tuple,
     Dict,
@@ -37,6 +39,12 @@ from numba_scfg.core.datastructures.block_names import (
     SYNTH_EXIT,
     SYNTH_ASSIGN,
     SYNTH_RETURN,
+)
+
+
+# Shape of the names handed out by the NameGenerator.
+_GENERATED_NAME = re.compile(
+    r"(.*)_(?:block|region)_([0-9]+)|__scfg_(.*)_var_([0-9]+)__", re.DOTALL
 )
 
 
@@ -146,6 +154,26 @@ class NameGenerator:
             self.kinds[kind] = idx + 1
         return name
 
+    def reserve_names(self, names: Iterable[str]) -> None:
+        """Advance the counters past names that are already in use.
+
+        Any given name that has the shape of a generated block, region or
+        variable name moves the counter of its kind beyond its index, so
+        that the generator never hands out a name that already exists.
+
+        Parameters
+        ----------
+        names: Iterable[str]
+            Names that are already in use.
+        """
+        for name in names:
+            match = _GENERATED_NAME.fullmatch(name)
+            if match:
+                # one of the two alternatives matched; a kind may be empty
+                kind, idx_str = [g for g in match.groups() if g is not None]
+                idx = int(idx_str)
+                self.kinds[kind] = max(self.kinds.get(kind, 0), idx + 1)
+
 
 @dataclass(frozen=True)
 class SCFG(Sized):
@@ -175,6 +203,14 @@ class SCFG(Sized):
     region: RegionBlock = field(init=False, compare=False)
 
     def __post_init__(self) -> None:
+        # Names already present in the graph must never be handed out again,
+        # e.g. when the graph was read back from a dictionary.
+        self.name_gen.reserve_names(self.graph.keys())
+        for block in self.graph.values():
+            if isinstance(block, SyntheticBranch):
+                self.name_gen.reserve_names([block.variable])
+            elif isinstance(block, SyntheticAssignment):
+                self.name_gen.reserve_names(block.variable_assignment.keys())
         name = self.name_gen.new_region_name("meta")
         new_region = RegionBlock(
             name=name,
@@ -485,6 +521,7 @@ class SCFG(Sized):
         basic_block: BasicBlock
             The basic_block parameter represents the block to be added.
         """
+        self.name_gen.reserve_names([basic_block.name])
         self.graph[basic_block.name] = basic_block
 
     def remove_blocks(self, names: Set[str]) -> None:
